@@ -34,6 +34,8 @@ use crate::fp::{fingerprint, Fingerprint};
 use crate::observers::{self, Q_DIGEST, Q_RESIDUAL, Q_STRICT, Q_UNINSTALLED};
 use crate::world::{channels, live_state_root, Sim};
 
+const FP_WINDOW: usize = 6;
+
 const RULE: &str = "case = generated runtime (1-3 worldlines, 1-2 heads, optional harness-built prefix with \
 recorded truth outputs) driven by SuperTicks with a history-folding native rule, interleaved with strand \
 forks, provenance forks and checkpoints; the request matrix (frontier/tick0/mid/last/first-future/far-future \
@@ -188,6 +190,8 @@ pub struct CaseStats {
     pub repeats_after_mutation: u64,
     pub unavailable_typed: u64,
     pub fingerprints: u64,
+    pub reads_bracketed: u64,
+    pub reads_bracketed_alone: u64,
     pub fp_bytes: u64,
     pub determinism_pairs: u64,
     pub optic_reads: u64,
@@ -217,6 +221,8 @@ pub struct Ctx<'a> {
     /// expires (what was checked until then stays checked).
     deadline: Option<Budget>,
     incomplete: bool,
+    window: Vec<String>,
+    seen_kinds: std::collections::HashSet<u64>,
 }
 
 impl<'a> Ctx<'a> {
@@ -259,29 +265,64 @@ impl<'a> Ctx<'a> {
     }
 
     /// Read-only monitor: called after every read.
-    fn check_fp(&mut self, sim: &Sim, path: &str, what: &dyn Fn() -> String) {
+    ///
+    /// A *full* fingerprint (every field of runtime + provenance + engine) is
+    /// taken immediately after a read whenever that read is the first of its
+    /// kind in this case (entry point x frame x projection x coordinate kind x
+    /// outcome), and otherwise at least after every `FP_WINDOW` reads and at the
+    /// end of every pass — so every read lies between two compared
+    /// fingerprints, and every distinct code path is bracketed on its own.
+    fn check_fp(&mut self, sim: &Sim, path: &str, kind: &str, what: &dyn Fn() -> String) {
+        self.window.push(kind.to_owned());
+        let first_of_kind = self.seen_kinds.insert(h64(kind.as_bytes()));
+        if first_of_kind || self.window.len() >= FP_WINDOW {
+            self.full_fp(sim, path, what);
+        }
+    }
+
+    /// Before the first read of a request kind: close the current window so that
+    /// this read gets bracketed on its own.
+    fn pre_fp(&mut self, sim: &Sim, path: &str, pre_kind: &str) {
+        if self.seen_kinds.insert(h64(format!("pre:{pre_kind}").as_bytes())) {
+            self.full_fp(sim, path, &|| format!("reads before the first {pre_kind}"));
+        }
+    }
+
+    fn full_fp(&mut self, sim: &Sim, path: &str, what: &dyn Fn() -> String) {
+        if self.window.is_empty() {
+            return;
+        }
         let now = fingerprint(&sim.runtime, &sim.provenance, &sim.engine);
         self.stats.fingerprints += 1;
         self.stats.fp_bytes += now.bytes;
+        if self.window.len() == 1 {
+            self.stats.reads_bracketed_alone += 1;
+        }
+        self.stats.reads_bracketed += self.window.len() as u64;
         if let Some(before) = &self.last_fp {
             if *before != now {
                 let comps = before.diff(&now).join("+");
+                let n = self.window.len();
+                let kinds = self.window.join(", ");
                 self.violation(
                     &format!("C16:{path}:read-only:{comps}-fingerprint-changed"),
                     format!(
-                        "serving a read changed the {comps} fingerprint; request: {}",
+                        "serving {n} read(s) [{kinds}] changed the {comps} fingerprint; last request: {}",
                         what()
                     ),
-                    json!({"request": what(), "components": comps}),
+                    json!({"last_request": what(), "components": comps, "reads_in_window": kinds}),
                 );
             }
         }
+        self.window.clear();
         self.last_fp = Some(now);
     }
 
+    /// New baseline after the harness itself mutated the runtime (not compared).
     fn rebaseline(&mut self, sim: &Sim) {
+        debug_assert!(self.window.is_empty(), "reads left unbracketed before a mutation");
+        self.window.clear();
         self.last_fp = Some(fingerprint(&sim.runtime, &sim.provenance, &sim.engine));
-        self.stats.fingerprints += 1;
     }
 
     /// Replays `(w, t)` (state after commit `t`) through provenance.
@@ -535,10 +576,24 @@ impl<'a> Ctx<'a> {
         remember: bool,
     ) -> Result<ObservationArtifact, ObservationError> {
         let desc = || format!("{req:?}");
+        let pre_kind = format!(
+            "observe/{}/{}/{}",
+            meta.coord.name(),
+            frame_name(req.frame),
+            proj_name(&req.projection)
+        );
+        self.pre_fp(sim, "observe", &pre_kind);
         let r1 = ObservationService::observe(&sim.runtime, &sim.provenance, &sim.engine, req.clone());
-        self.check_fp(sim, "observe", &desc);
+        let kind = format!(
+            "{pre_kind}/{}",
+            match &r1 {
+                Ok(_) => "reading",
+                Err(e) => err_name(e),
+            }
+        );
+        self.check_fp(sim, "observe", &kind, &desc);
         let r2 = ObservationService::observe(&sim.runtime, &sim.provenance, &sim.engine, req.clone());
-        self.check_fp(sim, "observe", &desc);
+        self.check_fp(sim, "observe", &kind, &desc);
         self.stats.reads += 2;
         self.stats.determinism_pairs += 1;
         self.count(&format!(
@@ -972,10 +1027,35 @@ impl<'a> Ctx<'a> {
 
     fn issue_optic(&mut self, sim: &Sim, req: &ObserveOpticRequest, n: u64, known: bool, remember: bool) {
         let desc = || format!("{req:?}");
+        let pre_kind = format!(
+            "observe-optic/{}/{}",
+            match &req.coordinate {
+                EchoCoordinate::Worldline { at: CoordinateAt::Frontier, .. } => "frontier",
+                EchoCoordinate::Worldline { at: CoordinateAt::Tick(_), .. } => "tick",
+                EchoCoordinate::Worldline { at: CoordinateAt::Provenance(_), .. } => "provenance",
+                _ => "non-worldline",
+            },
+            match &req.aperture.shape {
+                OpticApertureShape::Head => "head",
+                OpticApertureShape::SnapshotMetadata => "snapshot-metadata",
+                OpticApertureShape::TruthChannels { .. } => "truth-channels",
+                OpticApertureShape::QueryBytes { .. } => "query-bytes",
+                OpticApertureShape::ByteRange { .. } => "byte-range",
+                OpticApertureShape::AttachmentBoundary => "attachment-boundary",
+            }
+        );
+        self.pre_fp(sim, "observe-optic", &pre_kind);
         let r1 = ObservationService::observe_optic(&sim.runtime, &sim.provenance, &sim.engine, req.clone());
-        self.check_fp(sim, "observe-optic", &desc);
+        let kind = format!(
+            "{pre_kind}/{}",
+            match &r1 {
+                ObserveOpticResult::Reading(_) => "reading".to_owned(),
+                ObserveOpticResult::Obstructed(o) => format!("{:?}", o.kind),
+            }
+        );
+        self.check_fp(sim, "observe-optic", &kind, &desc);
         let r2 = ObservationService::observe_optic(&sim.runtime, &sim.provenance, &sim.engine, req.clone());
-        self.check_fp(sim, "observe-optic", &desc);
+        self.check_fp(sim, "observe-optic", &kind, &desc);
         self.stats.optic_reads += 2;
         self.stats.reads += 2;
         self.stats.determinism_pairs += 1;
@@ -1191,7 +1271,7 @@ impl<'a> Ctx<'a> {
                 Remembered::Obs { req, was } => {
                     let desc = || format!("{req:?}");
                     let r = ObservationService::observe(&sim.runtime, &sim.provenance, &sim.engine, req.clone());
-                    self.check_fp(sim, "observe", &desc);
+                    self.check_fp(sim, "observe", "observe/repeat-after-mutation", &desc);
                     self.stats.reads += 1;
                     self.stats.repeats_after_mutation += 1;
                     match r {
@@ -1238,7 +1318,7 @@ impl<'a> Ctx<'a> {
                 } => {
                     let desc = || format!("{req:?}");
                     let r = ObservationService::observe_optic(&sim.runtime, &sim.provenance, &sim.engine, req.clone());
-                    self.check_fp(sim, "observe-optic", &desc);
+                    self.check_fp(sim, "observe-optic", "observe-optic/repeat-after-mutation", &desc);
                     self.stats.reads += 1;
                     self.stats.optic_reads += 1;
                     self.stats.repeats_after_mutation += 1;
@@ -1564,6 +1644,8 @@ pub fn run_case(
         violations: 0,
         deadline,
         incomplete: false,
+        window: Vec::new(),
+        seen_kinds: std::collections::HashSet::new(),
     };
 
     for _ in 0..rng.range(1, 4) {
@@ -1583,6 +1665,7 @@ pub fn run_case(
     }
     ctx.rebaseline(&sim);
     pass(&mut ctx, &sim, &mut rng, true);
+    ctx.full_fp(&sim, "observe", &|| "end of pass".to_owned());
 
     let phases = rng.range(1, 3);
     for _ in 0..phases {
@@ -1615,7 +1698,9 @@ pub fn run_case(
         }
         ctx.rebaseline(&sim);
         ctx.recheck(&sim);
+        ctx.full_fp(&sim, "observe", &|| "end of stability re-asks".to_owned());
         pass(&mut ctx, &sim, &mut rng, true);
+        ctx.full_fp(&sim, "observe", &|| "end of pass".to_owned());
     }
 
     ctx.stats.commits = sim.commits;
@@ -1678,6 +1763,8 @@ fn fold_stats(rep: &mut Report, s: &CaseStats) {
     rep.count("repeats_after_later_commits", s.repeats_after_mutation);
     rep.count("unavailable_history_typed_errors", s.unavailable_typed);
     rep.count("fingerprints_compared", s.fingerprints);
+    rep.count("reads_bracketed_by_fingerprints", s.reads_bracketed);
+    rep.count("reads_bracketed_individually", s.reads_bracketed_alone);
     rep.count("fingerprint_bytes_hashed", s.fp_bytes);
     rep.count("determinism_pairs", s.determinism_pairs);
     rep.count("optic_reads", s.optic_reads);
